@@ -30,6 +30,25 @@ def judge(case):
     if sys.getrecursionlimit() > 1000:
         raise harness.HarnessError("recursion limit was raised")
     T = sg.Tensor
+    if kind == "detach_each_step":
+        w = T(np.array([0.5, -0.25]), requires_grad=True)
+        h = T(np.array([1.0, 2.0]))
+        refs = []
+        for i in range(n):
+            h = (h * w + 1.0).detach()           # history is cut here at every step
+            if i < n - 10: refs.append(weakref.ref(h))
+        gc.collect()
+        alive = sum(1 for r in refs if r() is not None)
+        if alive > 4:
+            v("history-kept", f"{alive} of {len(refs)} earlier states are still alive although every step ended with detach()")
+        calls, (BF, orig) = _count_calls(sg)
+        try:
+            (h * w).sum().backward()
+        finally:
+            BF.__call__ = orig
+        if len(calls) != 2 or any(c != 1 for c in calls.values()):
+            v("backward-walks-detached-history", f"backward after the cut invoked {sum(calls.values())} backward functions, the differentiable graph has 2")
+        return {"nontrivial": n >= 100, "outcome": "ok", "violations": viol}
     if kind.startswith("untracked"):
         import contextlib
         kind0 = kind.split("+")[0]
@@ -176,7 +195,7 @@ def all_cases(tier):
     out = []
     for kind in ("chain", "ladder", "tree", "fanin", "untracked_no_grad", "untracked_no_operand_requires_grad",
                  "untracked_no_grad+retain_grads", "untracked_no_operand_requires_grad+retain_grads",
-                 "untracked_no_grad+varying_scalars", "untracked_no_operand_requires_grad+varying_scalars"):
+                 "untracked_no_grad+varying_scalars", "untracked_no_operand_requires_grad+varying_scalars", "detach_each_step"):
         for n in sizes:
             if kind == "ladder" and n > 20000: continue
             out.append({"kind": kind, "n": n})
